@@ -518,6 +518,11 @@ func (en *Engine) runUntilBranch(st *State) ([]*State, *Terminal, error) {
 				st.addEvent(&Event{Kind: EvDeref, Instr: x, X: xv})
 			}
 			st.addEvent(&Event{Kind: EvSlice, Instr: x, X: xv, Lo: lo, Hi: hi, Max: mx})
+			// b[:len(b)] and b[:len(b):len(b)] are the same bytes at the same place (only the capacity is clipped)
+			if isSliceType(x.X.Type()) && hi != nil && (lo == nil || isConstInt(lo, 0)) && hi.Key() == mkLen(st, xv, hi.Type()).Key() && (mx == nil || mx.Key() == hi.Key()) {
+				fr.env[x] = xv
+				continue
+			}
 			fr.env[x] = mkSlice(xv, lo, hi, mx, x.Type())
 		case *ssa.UnOp:
 			xv := en.eval(st, fr, x.X)
@@ -1305,11 +1310,17 @@ func (en *Engine) branch(st *State, fr *Frame, ifi *ssa.If, cv Val) []*State {
 		top := fr.loops[len(fr.loops)-1]
 		inT, inF := top.info.blocks[tb], top.info.blocks[fb]
 		if inT != inF {
+			inSucc := tb
+			if inF {
+				inSucc = fb
+			}
 			switch {
-			case top.mode != 0: // exit modes: leave the loop at the first exit test
+			case top.mode != 0 && (fr.block == top.info.header || top.info.chain[fr.block]) && top.info.chain[inSucc]:
+				// exit modes, `for a && b`: the loop is left at this part of the condition or at a later one
+			case top.mode != 0: // exit modes: leave the loop at the first exit test (the last part of the condition)
 				takeT, takeF = !inT, !inF
 				forced = true
-			case fr.block == top.info.header: // generic iteration: must enter the body
+			case fr.block == top.info.header || top.info.chain[fr.block]: // generic iteration: must enter the body (`for a && b`: every part of the condition holds)
 				takeT, takeF = inT, inF
 				forced = true
 			}
@@ -1548,6 +1559,21 @@ func decide(st *State, c Val) (bool, bool) {
 		if okx && oky && ax.Key() != ay.Key() {
 			return false, true
 		}
+		// x == y where the path knows x == nil and y cannot be nil (err == dsig.ErrMissingSignature after err == nil)
+		if !isNilConst(b.X) && !isNilConst(b.Y) && isNillable(b.X.Type()) {
+			knownNil := func(v Val) bool {
+				k := "(" + v.Key() + " == nil)"
+				for _, f := range st.facts {
+					if f.Pol && f.Cond.Key() == k {
+						return true
+					}
+				}
+				return false
+			}
+			if (knownNil(b.X) && nonNilByConstruction(b.Y)) || (knownNil(b.Y) && nonNilByConstruction(b.X)) {
+				return false, true
+			}
+		}
 	}
 	return false, false
 }
@@ -1594,6 +1620,51 @@ type loopInfo struct {
 	header *ssa.BasicBlock
 	blocks map[*ssa.BasicBlock]bool
 	stores []*ssa.Store
+	chain  map[*ssa.BasicBlock]bool // blocks after the header that only continue the loop condition (`for a && b`)
+}
+
+// conditionChain: the blocks reached from the header through in-loop edges that compute nothing but a further part of
+// the loop condition: a single predecessor, only pure value instructions, an If with one successor outside the loop.
+func conditionChain(li *loopInfo) map[*ssa.BasicBlock]bool {
+	chain := map[*ssa.BasicBlock]bool{}
+	b := li.header
+	for {
+		ifi, ok := b.Instrs[len(b.Instrs)-1].(*ssa.If)
+		if !ok || ifi == nil || len(b.Succs) != 2 {
+			return chain
+		}
+		var next *ssa.BasicBlock
+		switch in0, in1 := li.blocks[b.Succs[0]], li.blocks[b.Succs[1]]; {
+		case in0 && !in1:
+			next = b.Succs[0]
+		case in1 && !in0:
+			next = b.Succs[1]
+		default:
+			return chain
+		}
+		// go/ssa labels the block that evaluates the right operand of && "cond.true"; a body that merely starts with a
+		// test (`for … { if c { break } … }`) is not part of the condition
+		if next == li.header || chain[next] || len(next.Preds) != 1 || len(next.Instrs) == 0 || next.Comment != "cond.true" {
+			return chain
+		}
+		nif, isIf := next.Instrs[len(next.Instrs)-1].(*ssa.If)
+		if !isIf || nif == nil || len(next.Succs) != 2 || li.blocks[next.Succs[0]] == li.blocks[next.Succs[1]] {
+			return chain
+		}
+		for _, in := range next.Instrs[:len(next.Instrs)-1] {
+			switch x := in.(type) {
+			case *ssa.BinOp, *ssa.UnOp, *ssa.FieldAddr, *ssa.IndexAddr, *ssa.Field, *ssa.Index, *ssa.Convert, *ssa.ChangeType, *ssa.Extract, *ssa.DebugRef:
+			case *ssa.Call:
+				if bi, isB := x.Call.Value.(*ssa.Builtin); !isB || (bi.Name() != "len" && bi.Name() != "cap") {
+					return chain
+				}
+			default:
+				return chain
+			}
+		}
+		chain[next] = true
+		b = next
+	}
 }
 
 func findLoops(fn *ssa.Function) map[*ssa.BasicBlock]*loopInfo {
@@ -1621,6 +1692,7 @@ func findLoops(fn *ssa.Function) map[*ssa.BasicBlock]*loopInfo {
 		}
 	}
 	for _, li := range out {
+		li.chain = conditionChain(li)
 		var bs []*ssa.BasicBlock
 		for b := range li.blocks {
 			bs = append(bs, b)
